@@ -78,6 +78,9 @@ def items(tier):
             for rule in (("TSLACK", "FIFO") if tier == "quick" else ("TSLACK", "SPT", "FIFO", "LRPT")):
                 out.append((sp, {"rule": rule, "max_time": F.seq_bound(sp) + 8}))
             out.append((sp, {"rule": "TSLACK", "absence": [1], "res_absence": {"W0": [0, 2]}, "max_time": F.seq_bound(sp) + 10}))
+            if any(k in ("FF", "SF") for _, _, k in fl["links"]):
+                # successors listed before their predecessors in workflow.task_list
+                out.append((dict(sp, order=[2, 1, 0]), {"rule": "TSLACK", "max_time": F.seq_bound(sp) + 8}))
     for fl in list(F.flows(3, ("FS", "SS"), (2,))):
         sp = F.with_teams(fl, "POOL2")
         sp = dict(sp, tasks=[dict(t) for t in sp["tasks"]])
